@@ -35,9 +35,11 @@ for sid in ids:
             caught = prop
             break
     out["caught_by"] = caught
+    if not caught and meta.get("expected_miss"):
+        out["expected_miss"] = meta["expected_miss"]
     results[sid] = out
     json.dump(results, open(res_p, "w"), indent=1, sort_keys=True)
     print("%-8s %-7s %s" % (sid, "caught:" + caught if caught else "MISSED", "; ".join(out["checks"][caught]["signatures"][:3]) if caught else out["checks"]), flush=True)
-missed = [s for s in ids if s in results and not results[s]["caught_by"]]
+missed = [s for s in ids if s in results and not results[s]["caught_by"] and not results[s].get("expected_miss")]
 print("seeds: %d  missed: %s" % (len(ids), missed))
 sys.exit(1 if missed else 0)
